@@ -5,9 +5,13 @@ use sqlgrep::model::{Float, Value, ValueType};
 const NEAR: i64 = 1 << 40;
 
 const TWO32: i64 = 1 << 32;
+const TWO53: i64 = 1 << 53;
+const TWO31: i64 = 1 << 31;
 
 pub fn jint(x: i64) -> J {
     // values just beyond 32 bits (wrap-around candidates) have their own base: TLC integers are 32-bit
+    if x > (1 << 50) && x.checked_sub(TWO53).map(|d| d.abs() < (1 << 20)).unwrap_or(false) { return json!({"t": "int", "b": 3, "i": x - TWO53}); }
+    if x.checked_sub(TWO31).map(|d| d.abs() < (1 << 20)).unwrap_or(false) { return json!({"t": "int", "b": 4, "i": x - TWO31}); }
     if x.checked_sub(TWO32).map(|d| d.abs() < (1 << 20)).unwrap_or(false) { return json!({"t": "int", "b": 2, "i": x - TWO32}); }
     if x > i64::MAX - NEAR { json!({"t": "int", "b": 1, "i": x - i64::MAX}) }
     else if x < i64::MIN + NEAR { json!({"t": "int", "b": -1, "i": x - i64::MIN}) }
@@ -19,6 +23,9 @@ pub fn jreal(x: f64) -> J {
     if x == f64::INFINITY { return json!({"t": "real", "c": "pinf", "n": 0, "d": 1}); }
     if x == f64::NEG_INFINITY { return json!({"t": "real", "c": "ninf", "n": 0, "d": 1}); }
     if x == 0.0 && x.is_sign_negative() { return json!({"t": "real", "c": "nzero", "n": 0, "d": 1}); }
+    if x == f64::from_bits(0.25f64.to_bits() + 1) { return json!({"t": "real", "c": "q25n", "n": 0, "d": 1}); }
+    if x == 9007199254740992.0 { return json!({"t": "real", "c": "p53", "n": 0, "d": 1}); }
+    if x == 9007199254740994.0 { return json!({"t": "real", "c": "p53b", "n": 0, "d": 1}); }
     if x == 9223372036854775808.0 { return json!({"t": "real", "c": "p63", "n": 0, "d": 1}); }
     if x == -9223372036854775808.0 { return json!({"t": "real", "c": "n63", "n": 0, "d": 1}); }
     let mut d: i64 = 1;
@@ -59,12 +66,14 @@ pub fn text_of(v: &J) -> String {
 
 pub fn int_of(v: &J) -> i64 {
     let i = v["i"].as_i64().unwrap();
-    match v["b"].as_i64().unwrap() { 1 => i64::MAX + i, -1 => i64::MIN + i, 2 => TWO32 + i, _ => i }
+    match v["b"].as_i64().unwrap() { 1 => i64::MAX + i, -1 => i64::MIN + i, 2 => TWO32 + i, 3 => TWO53 + i, 4 => TWO31 + i, _ => i }
 }
 
 pub fn real_of(v: &J) -> f64 {
     match v["c"].as_str().unwrap() {
         "nan" => f64::NAN, "pinf" => f64::INFINITY, "ninf" => f64::NEG_INFINITY, "nzero" => -0.0,
+        "q25n" => f64::from_bits(0.25f64.to_bits() + 1),
+        "p53" => 9007199254740992.0, "p53b" => 9007199254740994.0,
         "p63" => 9223372036854775808.0, "n63" => -9223372036854775808.0,
         _ => v["n"].as_i64().unwrap() as f64 / v["d"].as_i64().unwrap() as f64
     }
